@@ -16,6 +16,13 @@ ASSUMPTIONS = ["tree-sitter and pep508_rs are inputs of the models (real output 
                "the LSP position encoding is UTF-16 (the server negotiates nothing else)"]
 
 
+WIRE_CHECKED, WIRE_SKIPPED = [0], [0]
+
+
+def evidence_notes():
+    return {"diagnostic_ranges_compared_in_utf16_units": WIRE_CHECKED[0], "packages_without_a_usable_diagnostic": WIRE_SKIPPED[0]}
+
+
 def utf16_len(s):
     return len(s.encode("utf-16-le")) // 2
 
@@ -113,6 +120,8 @@ def streams(ctx):
 
     def derive_b(cs, impl):
         der = []
+        # the ranges the real generate_diagnostics puts on the wire for these manifests (a storer in which no declared version exists)
+        wire = vlib.run_impl([vlib.line("diag.ranges", m[0], m[2]) for m in meta])
         # the premise of the location theorems (QuotedNode) on the real trees of well-formed JSON / TOML manifests
         hyp = [i for i, m in enumerate(meta) if m[0] in ("npm", "jsr", "crates", "pypi")][: (400 if quick else 8000)]
         dumps = vlib.run_impl([vlib.line("ts.dump", meta[i][0], meta[i][2]) for i in hyp])
@@ -163,10 +172,23 @@ def streams(ctx):
                         # the diagnostic range in the client's units
                         ls = b.rfind(b"\n", 0, s) + 1
                         want = (utf16_len(b[ls:s].decode("utf-8")), utf16_len(b[ls:e].decode("utf-8")))
-                        have = (p["col"], p["col"] + e - s)
-                        if want != have:
-                            why = f"diagnostic range characters {have} but the spec is at UTF-16 characters {want} of its line"
-                            kid = "F-C05-3" if any(ord(ch) > 127 for ch in b[ls:e].decode("utf-8")) else None
+                        # the diagnostic of THIS package: generate_diagnostics keeps the package order; usable when every package got one
+                        wl = wire[i].split(" ", 1)
+                        wds = [x for x in (wl[1].split(";") if len(wl) > 1 and wl[1] else [])]
+                        allp = pkgs_of(o)
+                        if wire[i].startswith("n=") and len(wds) == len(allp) == int(wl[0][2:]):
+                            WIRE_CHECKED[0] += 1
+                            k = allp.index(p)
+                            l1, rest = wds[k].split(":", 1)
+                            c1, rest2 = rest.split("-", 1)
+                            l2, c2 = rest2.split(":")
+                            have = (int(c1), int(c2))
+                            if int(l1) != p["line"] or l1 != l2:
+                                why = f"diagnostic on lines {l1}..{l2}, the spec is on line {p['line']}"
+                            elif want != have:
+                                why = f"diagnostic range characters {have} but the spec is at UTF-16 characters {want} of its line"
+                        else:
+                            WIRE_SKIPPED[0] += 1
                 if why:
                     lay = {k: v for k, v in L.items() if v and k not in ("indent", "sp_colon")}
                     der.append({"req": vlib.line("ml.settle"), "index": i, "history": [cs[i]["req"]],
@@ -188,17 +210,23 @@ def streams(ctx):
 
     def derive_w(cs, impl):
         der = []
+        wirew = vlib.run_impl([vlib.line("diag.ranges", eco, text) for _, eco, text, _ in W])
         for i, ((kid, eco, text, spec), o) in enumerate(zip(W, impl)):
             b = text.encode("utf-8")
             broken = False
-            for p in (pkgs_of(o) if not o.startswith(("PANIC", "ABORT", "HANG")) else []):
+            allp = pkgs_of(o) if not o.startswith(("PANIC", "ABORT", "HANG")) else []
+            wl = wirew[i].split(" ", 1)
+            wds = [x for x in (wl[1].split(";") if len(wl) > 1 and wl[1] else [])]
+            for k, p in enumerate(allp):
                 if structural(text, p):
                     broken = True
                 elif spec is not None and (b[p["start"]:p["end"]].decode("utf-8", "replace") != spec or p["start"] != b.rfind(spec.encode("utf-8"))):
                     broken = True
-                elif kid != "F-C05-7":      # (that witness needs a non-ASCII character before the value: its UTF-16 column is F-C05-3's subject)
+                elif len(wds) == len(allp):
+                    # the range on the wire is the UTF-16 position of the spec on its line
                     ls = b.rfind(b"\n", 0, p["start"]) + 1
-                    if utf16_len(b[ls:p["start"]].decode("utf-8")) != p["col"]:
+                    c1 = int(wds[k].split(":", 1)[1].split("-")[0])
+                    if utf16_len(b[ls:p["start"]].decode("utf-8")) != c1:
                         broken = True
             if broken:
                 der.append({"req": vlib.line("ml.settle"), "index": i, "history": [cs[i]["req"]], "check": (lambda out, kid=kid: ("known", kid))})
